@@ -1,6 +1,6 @@
 """C19 every header is self-contained in every supported build configuration: exhaustive CONFIGURATION enumeration.
 
-The 'execution' is a compiler / linker / program run.  Five units, each the full cartesian product of a stated
+The 'execution' is a compiler / linker / program run.  Six units, each the full cartesian product of a stated
 finite space (see NOTES.md):
 
   U1 include   every header under include/xtl x {single, double include} x {g++, clang++} x {c++14,17,20}
@@ -20,7 +20,13 @@ finite space (see NOTES.md):
                definitions of the class templates + calls of every constructor / member / function template), built -O0
                and linked; a failing TU is rebuilt entry by entry and reported as header:entry/member.
 
-Oracle: exit status and diagnostics of compiler and linker, exit status / signal / printed markers of the programs.
+  U6 invariance  the corpus of use programs generated from the tables of uses.py (header x entry point x kind of argument /
+               template argument), batched into programs that are compiled -O0, linked and RUN per configuration: the verdict of
+               a use (builds / exit status / returned value) must be the same in every configuration; a use that builds under one
+               configuration and is rejected (or behaves differently) under another is the violation.
+
+Oracle: exit status and diagnostics of compiler and linker, exit status / signal / printed markers of the programs; for U6 the
+verdict of the same source text in the other configurations.
 """
 import collections
 import itertools
@@ -522,9 +528,212 @@ def probe_excluded(ctx, bud, cfgs):
     stat(ctx, "u5_capability_probes", len(jobs))
 
 
+# ---- U6: configuration invariance of USE programs ------------------------------------------------------------------------
+
+def _unlimited_errors(cfg):
+    return ["-ferror-limit=0"] if cfg[0].startswith("clang") else ["-fmax-errors=0"]
+
+
+def build_use_tus(tag, batch, uses, cfg):
+    """Build (compile -O0, link) and run the translation unit(s) of `uses` in one configuration.
+    -> ('ok', [value per use]) | ('build', candidate indices named by the diagnostics, first diagnostic)
+       | ('run', [values of the uses that completed], index of the use that did not complete, fate)"""
+    import uses as U
+    d = os.path.join(GENDIR, "use", cfg_slug(cfg))
+    base = os.path.join(d, "%s-%s" % (batch["name"], tag))
+    srcs = [base + "-tu0.cpp"]
+    text, linemap = U.tu_text(batch, uses, 0, True)
+    write_file(srcs[0], text)
+    if batch["two_tu"]:
+        srcs.append(base + "-tu1.cpp")
+        write_file(srcs[1], U.tu_text(batch, uses, 1, False)[0])
+    exe = base + ".exe"
+    try:
+        rc, _, err = run_tool(cc_cmd(cfg, _unlimited_errors(cfg) + ["-O0"] + srcs + ["-o", exe]), timeout=900)
+        if rc != 0:
+            cand = set()
+            names = [re.escape(os.path.basename(s)) for s in srcs]
+            for m in re.finditer(r"(?:%s):(\d+)[:,]" % "|".join(names), err):
+                if int(m.group(1)) in linemap:
+                    cand.add(linemap[int(m.group(1))])
+            for m in re.finditer(r"\bc19_[uv](\d+)\(\)", err):
+                if int(m.group(1)) < len(uses):
+                    cand.add(int(m.group(1)))
+            return ("build", sorted(cand), diag_with_member(err))
+        try:
+            r = subprocess.run([exe], stdout=subprocess.PIPE, stderr=subprocess.PIPE, timeout=120)
+            prc, out = r.returncode, r.stdout.decode("utf-8", "replace")
+        except subprocess.TimeoutExpired:
+            prc, out = "timeout", ""
+        vals = {}
+        for ln in out.splitlines():
+            p = ln.split()
+            if len(p) == 3 and p[0] in ("U", "V") and p[1].isdigit():
+                vals.setdefault(int(p[1]), []).append(p[0] + "=" + p[2])
+        need = 2 if batch["two_tu"] else 1
+        done = []
+        for i in range(len(uses)):
+            if len(vals.get(i, ())) == need:
+                done.append(",".join(vals[i]))
+            else:
+                fate = ("killed-by-signal-%d" % -prc) if isinstance(prc, int) and prc < 0 else ("exit-status-%s" % prc)
+                return ("run", done, i, fate)
+        if prc != 0:
+            return ("run", done[:-1], len(uses) - 1, "exit-status-%s" % prc)
+        return ("ok", done)
+    finally:
+        for f in srcs + [exe]:
+            if os.path.exists(f):
+                os.unlink(f)
+
+
+def eval_use_batch(ctx, batch, cfg):
+    """Verdict of every use of the batch in one configuration: idx -> ('ok', value) | ('rejected', diag) | ('run-fail', fate).
+    The whole batch is built as one program; only if that fails are uses attributed (those the diagnostics name are built
+    alone, the rest is rebuilt together), so the cost on a healthy tree is one build per (batch, configuration)."""
+    verdict = {}
+    pending = list(range(len(batch["uses"])))
+    rounds = 0
+    while pending:
+        rounds += 1
+        uses = [batch["uses"][i] for i in pending]
+        r = build_use_tus("r%d" % rounds, batch, uses, cfg)
+        stat(ctx, "tool_runs", 2)
+        if rounds > 1:
+            stat(ctx, "u6_attribution_builds", 1)
+        if r[0] == "ok":
+            for k, i in enumerate(pending):
+                verdict[i] = ("ok", r[1][k])
+            break
+        if r[0] == "run":
+            for k, v in enumerate(r[1]):
+                verdict[pending[k]] = ("ok", v)
+            verdict[pending[r[2]]] = ("run-fail", r[3])
+            pending = pending[r[2] + 1:]
+            continue
+        if len(pending) == 1:
+            verdict[pending[0]] = ("rejected", r[2])
+            break
+        cand = r[1] if (r[1] and rounds <= 8) else list(range(len(pending)))  # nothing attributable: every use alone
+        for k in cand:
+            r1 = build_use_tus("s%d-%d" % (rounds, k), batch, [uses[k]], cfg)
+            stat(ctx, "tool_runs", 2)
+            stat(ctx, "u6_attribution_builds", 1)
+            verdict[pending[k]] = ("ok", r1[1][0]) if r1[0] == "ok" else ("rejected", r1[2]) if r1[0] == "build" else ("run-fail", r1[3])
+        cs = set(cand)
+        pending = [i for k, i in enumerate(pending) if k not in cs]
+    return verdict
+
+
+def run_uses(ctx, bud, batches, cfgs, headers, workers=WORKERS, what="U6 uses"):
+    """-> results[(batch name, cfg)] = {use index: verdict}"""
+    results = {}
+    skipped = [0]
+    cases = [(b, c) for c in cfgs for b in batches if b["header"] in headers and all(h in headers for h in b["also"])]
+
+    def job(b, c):
+        if bud.left() < 0:
+            with _lock:
+                skipped[0] += 1
+            return
+        v = eval_use_batch(ctx, b, c)
+        with _lock:
+            results[(b["name"], c)] = v
+
+    vlib.parallel([(lambda b=b, c=c: job(b, c)) for b, c in cases], workers=workers)
+    if skipped[0]:
+        ctx.cap("%s: deadline reached, %d of %d (batch of uses, configuration) programs were not built" % (what, skipped[0], len(cases)))
+    return results
+
+
+def _vclass(v):
+    return ("ok", v[1]) if v[0] == "ok" else ("rejected",) if v[0] == "rejected" else ("run-fail", v[1])
+
+
+def judge_uses(ctx, batches, results, broken=(), clo=None, declared=None, probes=False):
+    """Invariance oracle: the verdict of a use must be the same in all configurations in which it was evaluated.
+    -> (number of (use, configuration) verdicts, set of non-trivial cases, number of uses rejected everywhere)"""
+    clo = clo or {}
+    n_cases = 0
+    nt = set()
+    n_rej_all = 0
+    n_acc_all = 0
+    classes = set()
+    groups = collections.OrderedDict()
+    for b in batches:
+        hs = [b["header"]] + list(b["also"])
+        for i, u in enumerate(b["uses"]):
+            per = {}
+            for c in ALL_CFGS:
+                r = results.get((b["name"], c))
+                if r is None or i not in r:
+                    continue
+                if any((h, c) in broken or any((g, c) in broken for g in clo.get(h, ())) for h in hs):
+                    stat(ctx, "implied_failures_not_reported_separately", 1)
+                    continue
+                per[c] = r[i]
+            if not per:
+                continue
+            n_cases += len(per)
+            cl = collections.OrderedDict()
+            for c in sorted(per, key=ALL_CFGS.index):
+                cl.setdefault(_vclass(per[c]), []).append(c)
+                classes.add((u["id"], _vclass(per[c])))
+                if per[c][0] == "ok":
+                    nt.add(("use", u["id"], c))
+            run = declared if declared else sorted(per)
+            if len(cl) == 1:
+                k = list(cl)[0]
+                if k[0] == "rejected":
+                    n_rej_all += 1
+                    if not probes:
+                        ctx.note("U6 capability: use '%s | %s | %s' is rejected in every configuration evaluated (%d): not part of the corpus (first diagnostic: %s)" % (u["id"] + (len(per), list(per.values())[0][1][:200])))
+                elif k[0] == "ok":
+                    n_acc_all += 1
+                    if probes and len(per) == len(ALL_CFGS):
+                        ctx.note("U6 capability probe '%s | %s | %s' is NOW ACCEPTED in all %d configurations; uses.py can move it into the corpus" % (u["id"] + (len(per),)))
+                else:
+                    ctx.note("U6: use '%s | %s | %s' builds but does not complete in any configuration (%s): not configuration dependent, not judged" % (u["id"] + (k[1],)))
+                continue
+            # the verdict depends on the configuration
+            if any(k[0] == "rejected" for k in cl) and any(k[0] != "rejected" for k in cl):
+                kind, fail = "use-rejected", [c for k, cs in cl.items() if k[0] == "rejected" for c in cs]
+            elif any(k[0] == "run-fail" for k in cl):
+                kind, fail = "use-run-fails", [c for k, cs in cl.items() if k[0] == "run-fail" for c in cs]
+            else:
+                # all run, values differ: the configurations that disagree with the most common value (tie: with the first configuration)
+                best = sorted(cl.items(), key=lambda kv: (-len(kv[1]), ALL_CFGS.index(kv[1][0])))[0][0]
+                kind, fail = "use-value-differs", [c for k, cs in cl.items() if k != best for c in cs]
+            c0 = sorted(fail, key=ALL_CFGS.index)[0]
+            d0 = per[c0][1]
+            loc = re.search(r"(x[\w]+\.hpp:\d+)", d0) if kind == "use-rejected" else None
+            key = (b["header"], kind, loc.group(1) if loc else u["id"][1:])
+            good = [c for c in sorted(per, key=ALL_CFGS.index) if c not in fail]
+            groups.setdefault(key, []).append((u, fail, run, c0, per, good))
+    for (h, kind, _), items in groups.items():
+        u, fail, run, c0, per, good = items[0]
+        sig = "C19/%s:%s/%s@%s" % (h, u["id"][1].replace("/", "|"), kind, cfgclass(fail, run))
+        others = "" if len(items) == 1 else " The same happens for %d further use(s): %s%s." % (len(items) - 1, "; ".join("'%s' with %s" % (x[0]["id"][1], x[0]["id"][2]) for x in items[1:13]), " ..." if len(items) > 13 else "")
+        if kind == "use-rejected":
+            what = "compiles, links and runs in %d configuration(s) (%s) but is REJECTED in %d (%s; class: %s). First diagnostic [%s]: %s" % (
+                len(good), "; ".join(cfg_name(c) for c in good[:3]) + (" ..." if len(good) > 3 else ""), len(fail), "; ".join(cfg_name(c) for c in fail), cfgclass(fail, run), cfg_name(c0), per[c0][1])
+        elif kind == "use-run-fails":
+            what = "builds everywhere but the program does not complete in %d configuration(s) (%s): %s%s" % (len(fail), "; ".join(cfg_name(c) for c in fail), per[c0][1], "; it completes under " + cfg_name(good[0]) if good else "")
+        else:
+            what = "builds and runs everywhere but returns a different value in %d configuration(s) (%s): %s there, %s under %s" % (len(fail), "; ".join(cfg_name(c) for c in fail), per[c0][1], per[good[0]][1], cfg_name(good[0]))
+        msg = ("%s, entry point '%s' used with %s: the same source text %s. Use: { %s }.%s Expected: a program that uses a public header has the same compile / link / run verdict in every one of the 12 build configurations." % (
+            h, u["id"][1], u["id"][2], what, u["code"][:400], others))
+        ctx.violation(sig, msg, harness="c19-use", args=[json.dumps({"kind": "use", "id": list(u["id"]), "cfgs": [list(c) for c in run], "probe": bool(probes)})])
+    stat(ctx, "u6_probe_uses_rejected_everywhere" if probes else "u6_uses_rejected_everywhere_not_in_corpus", n_rej_all)
+    if not probes:
+        stat(ctx, "u6_uses_same_verdict_everywhere", n_acc_all)
+        stat(ctx, "u6_distinct_verdicts", len(classes))
+    return n_cases, nt, n_rej_all
+
+
 # ---- U3: link ------------------------------------------------------------------------------------------------------
 
-STD_AFTER = ["cfenv", "cstdio", "cstring", "functional", "limits", "string", "typeinfo", "utility"]
+STD_AFTER =["cfenv", "cstdio", "cstring", "functional", "limits", "string", "typeinfo", "utility"]
 
 
 
@@ -856,6 +1065,9 @@ COVERING6 = [("g++", "c++14", "exceptions"), ("g++", "c++17", "fno-exceptions"),
              ("clang++", "c++14", "fno-exceptions"), ("clang++", "c++17", "exceptions"), ("clang++", "c++20", "fno-exceptions")]
 
 
+U6_QUICK = COVERING6
+
+
 def tier_space(tier):
     """The declared space of each tier (fixed, not load dependent; what a deadline cuts off is reported as a cap)."""
     if tier == "quick":
@@ -868,10 +1080,12 @@ def tier_space(tier):
             "u2": [],
             "u5": [("g++", "c++14", "exceptions"), ("g++", "c++20", "exceptions"), ("clang++", "c++14", "exceptions"), ("clang++", "c++20", "exceptions"),
                    ("g++", "c++17", "fno-exceptions"), ("clang++", "c++17", "fno-exceptions")],
+            "u6": U6_QUICK, "u6_probes": [],
         }
     return {"u1_single": ALL_CFGS, "u1_double": ALL_CFGS, "u3": ALL_CFGS, "u3_keep": [c for c in ALL_CFGS if c[0] == "g++"], "u4": ALL_CFGS,
             # covering array first: if a deadline cuts U2 short, the completed configurations still pair every two configuration values
-            "u2": COVERING6 + [c for c in ALL_CFGS if c not in COVERING6], "u5": ALL_CFGS}
+            "u2": COVERING6 + [c for c in ALL_CFGS if c not in COVERING6], "u5": ALL_CFGS,
+            "u6": COVERING6 + [c for c in ALL_CFGS if c not in COVERING6], "u6_probes": ALL_CFGS}
 
 
 def _run(ctx):
@@ -929,6 +1143,13 @@ def _run(ctx):
     t5 = time.time()
     res5 = run_inst(ctx, bud, headers, sp["u5"], max(4, WORKERS - 6))
     stat(ctx, "u5_wall_s", time.time() - t5)
+    # U6 (execution; judged after U1 for the same reason)
+    import uses as U
+    t6 = time.time()
+    batches6, probes6 = U.corpus()
+    res6 = run_uses(ctx, bud, batches6, sp["u6"], headers, max(4, WORKERS - 4))
+    res6p = run_uses(ctx, bud, probes6, sp["u6_probes"], headers, max(4, WORKERS - 4), "U6 capability probes") if sp["u6_probes"] else {}
+    stat(ctx, "u6_wall_s", time.time() - t6)
     th3.join()
     th4.join()
     for name in ("u3", "u4"):
@@ -974,6 +1195,22 @@ def _run(ctx):
                     "how": "built -O0 and linked in one TU with the other %d entries of the header; result: %s" % (len(INST["xspan_impl.hpp"]["entries"]) - 1, "ok" if not res5.get(("xspan_impl.hpp", sp["u5"][0]), [1]) else "see violations")})
     if not quick:
         probe_excluded(ctx, bud, [("g++", "c++14", "exceptions"), ("clang++", "c++20", "exceptions")])
+
+    # U6
+    n6, nt6, _ = judge_uses(ctx, batches6, res6, broken, clo)
+    evaluations += n6
+    nt |= nt6
+    stat(ctx, "u6_use_cases", n6)
+    stat(ctx, "u6_uses_in_tables", sum(len(b["uses"]) for b in batches6))
+    stat(ctx, "u6_programs_built", len(res6))
+    stat(ctx, "u6_configurations", len(set(c for _, c in res6)))
+    if res6p:
+        n6p, _, _ = judge_uses(ctx, probes6, res6p, broken, clo, probes=True)
+        stat(ctx, "u6_capability_probe_cases", n6p)
+    b_s, u_s = next((b, u) for b in batches6 for u in b["uses"] if u["id"][0] == "xbase64.hpp" and u["id"][2].startswith("user type with operator std::string"))
+    ctx.sample({"unit": "U6", "case": "%s | %s | %s" % u_s["id"], "code": u_s["code"],
+                "how": "one of %d uses of this batch (2 translation units, linked, run); its verdict (build, exit status, returned value) must be the same in every configuration: %s" % (
+                    len(b_s["uses"]), sorted(set(str(_vclass(r[b_s["uses"].index(u_s)])) for (n, c), r in res6.items() if n == b_s["name"] and b_s["uses"].index(u_s) in r)))})
 
     # U3
     units3, r3 = bg["u3"][1]
@@ -1032,23 +1269,34 @@ def _run(ctx):
         "U5 per header one TU with EVERY entry of the committed table instantiations.py (%d entries: explicit instantiation definitions of the class templates with 1-3 argument sets each -- these instantiate every "
         "non-template member --, and functions that call every constructor / member / function template and operator once; %d classes whose explicit instantiation is ill-formed on the unchanged tree are covered by calls instead), "
         "compiled -O0 with code generation and LINKED x %s; a failing TU is rebuilt entry by entry. "
-        "evaluations = judged cases (U1 + U2 TUs, U3 programs, U4 runs, U5 (entry, configuration) pairs). distinct_nontrivial = distinct cases that are not degenerate by this rule: U1 cases of headers that contribute "
+        "U6 configuration INVARIANCE: the corpus of %d small use programs generated from the tables of uses.py (header x entry point x kind of argument / template argument: every bitset member x {owning, view} x 14 integral block "
+        "types incl. signed and plain char; base64encode/decode x 23 kinds of argument that convert to const std::string& (std::string in all value categories, literal, const char*, char*, array, braced lists, xtl fixed strings, user types "
+        "with a conversion operator, reference_wrapper, derived class); hash_bytes/murmur2_x86/murmur2_x64 x 15 buffer kinds and x 20 integer kinds for length, seed and result; executable_path/prefix_path/endianness x result kinds -- these "
+        "non-template functions in TWO translation units linked into one program; half x 15 arithmetic types; cmp_* x 100 ordered integer type pairs; fixed string members x 10 source kinds and 10 conversions; xcomplex x 3 value types x ieee mode; "
+        "xoptional / xmasked_value x 12 value types; any x 15 payload kinds; span x 11 element types; closure, make_sequence, select/identity, variant converting construction), batched into %d programs, each compiled -O0, linked and RUN x %s; "
+        "a use must have the SAME verdict (builds / exit status / returned value) in every configuration; a batch that fails is attributed use by use; a use that every configuration rejects is a capability probe (noted, not judged; %d such cells are "
+        "committed in uses_rejected.json and, with the %d hand-listed ones, are built one per program in the thorough tier only). "
+        "evaluations = judged cases (U1 + U2 TUs, U3 programs, U4 runs, U5 (entry, configuration) pairs, U6 (use, configuration) verdicts). distinct_nontrivial = distinct cases that are not degenerate by this rule: U1 cases of headers that contribute "
         "declarations (all but the macro-only xtl_config.hpp); U2 pairs (a,b) where b is NOT already included transitively by a (otherwise the second include is skipped by its guard) "
         "and neither is macro-only, the transitive include relation being read from the tree; U3 every program; every U5 (entry, configuration) pair (each instantiates library code); U4 the -fno-exceptions run of a scenario only if the same scenario was "
-        "observed to raise its documented exception in the exceptions-enabled build with the same compiler and -std (so the call really is an error path)" % (
+        "observed to raise its documented exception in the exceptions-enabled build with the same compiler and -std (so the call really is an error path); U6 every (use, configuration) verdict in which the use built and ran" % (
             len(headers), names(sp["u1_single"]), names(sp["u1_double"]), len(headers) * (len(headers) - 1), names(sp["u2"]) if sp["u2"] else "NO configuration (thorough tier only)",
             names(sp["u3"]) + (" (a covering array: every pair of configuration values occurs)" if quick else ""), names(sp["u3_keep"]), len(tab), names(sp["u4"]),
-            sum(1 for h in INST for e in INST[h]["entries"] if e["mode"] != "excluded"), sum(1 for h in INST for e in INST[h]["entries"] if e["mode"] == "calls" and e.get("explicit_probe")), names(sp["u5"])))
+            sum(1 for h in INST for e in INST[h]["entries"] if e["mode"] != "excluded"), sum(1 for h in INST for e in INST[h]["entries"] if e["mode"] == "calls" and e.get("explicit_probe")), names(sp["u5"]),
+            sum(len(b["uses"]) for b in batches6), len(batches6), names(sp["u6"]) + (" (the covering array)" if quick else ""), len(U.REJECTED_EVERYWHERE), len(probes6) - len(U.REJECTED_EVERYWHERE)))
     ctx.assumptions += [
         "toolchain: g++ 12 and clang++ 14, both on libstdc++ 12, x86-64 Linux; a missing #include that libstdc++ 12 happens to provide transitively is invisible (no second standard library is installed)",
         "U1/U2 (-fsyntax-only) instantiate only what the witness uses; U5 instantiates what instantiations.py lists: every non-template member of the listed specialisations and the listed calls. "
         "Member templates / argument sets that are not in the table are parsed, not instantiated; members that are ill-formed on the unchanged tree for every argument set tried are listed there as 'excluded' and only probed",
         "xjson.hpp is in scope (it is in XTL_HEADERS and is installed; CMake treats nlohmann_json as an optional dependency): it is compiled with ONLY the nlohmann/ directory of the installed nlohmann_json visible; its dependency's own headers are not judged",
         "the configuration space is the one the property names (compiler x -std x exceptions); NDEBUG, -fno-rtti, TCB_SPAN_* / HALF_* user macros and other platforms' #if branches are not enumerated",
+        "U6 judges configuration dependence only: the oracle for a use is its own verdict in the other configurations (same source text), no expected value is written down; values returned are quantities the library specifies "
+        "(counts, sizes, comparison results, hashes of encoded text), never addresses, paths, capacities or rounding-dependent floating-point results; a use that is ill-formed, or wrong, in EVERY configuration is not reported by U6 "
+        "(that is U5's and the other properties' business); implementation-defined behaviour on which g++ 12 and clang++ 14 agree (arithmetic right shift of negative signed blocks, modular narrowing) is part of the fixed platform",
         "U4 judges only calls that raise a documented exception when exceptions are enabled; any end of the process inside the failing call other than SIGSEGV/SIGBUS/SIGFPE counts as termination",
     ]
     if quick:
-        ctx.assumptions.append("quick tier: header pairs (U2), double include in 10 of 12 configurations, link in 6 of 12 (both compilers link the 2-TU program at -O0 under C++14), error paths in 8 of 12 and the instantiation TUs in 6 of 12 configurations are left to the thorough tier, "
+        ctx.assumptions.append("quick tier: header pairs (U2), double include in 10 of 12 configurations, link in 6 of 12 (both compilers link the 2-TU program at -O0 under C++14), error paths in 8 of 12 and the instantiation TUs in 6 of 12 configurations, the use corpus (U6) in the 6 configurations of the covering array (every pair of configuration values occurs, so a use whose verdict depends on one or two of compiler / standard / exception mode is seen) are left to the thorough tier, "
                                "which enumerates the full product; the two include orders of U3 place every pair of headers in both relative orders")
 
 
@@ -1106,6 +1354,20 @@ def _replay(ctx, rec):
             ok, diag = build_inst_tu("e0", h, e, c)
             res = {(h, c): ([] if ok else [(e[0], diag)])}
         judge_inst(ctx, res)
+    elif d["kind"] == "use":
+        import uses as U
+        batches, probes = U.corpus()
+        uid = tuple(d["id"])
+        cfgs = [_tup(c) for c in d["cfgs"]]
+        one = None
+        for b in batches + probes:
+            for u in b["uses"]:
+                if u["id"] == uid:
+                    one = dict(b, uses=[u], name=b["name"] + "-replay")
+        if one is None:
+            raise vlib.HarnessError("replay: use %r is no longer in uses.py" % (uid,))
+        res = run_uses(ctx, bud, [one], cfgs, headers)
+        judge_uses(ctx, [one], res, declared=cfgs, probes=d.get("probe", False))
     elif d["kind"] == "errpaths":
         cfgs = [_tup(c) for c in d["cfgs"]]
         only = set(d["k"])
